@@ -415,14 +415,14 @@ func (p *c17Prog) readExpr(k int) string {
 	case "ivar":
 		// instance variable of the flavor instance whose methods start the routines
 		return fmt.Sprintf("c%d", k)
-	default: // let
+	default: // let, wfslot / wcslot (slot of *fo* / *co* reached through a with-slots variable)
 		return fmt.Sprintf("c%d", k)
 	}
 }
 
 // the instance whose slot holds counter k (only for fslot / cslot counters)
 func (p *c17Prog) instanceOf(k int) string {
-	if p.Kinds[k] == "cslot" {
+	if p.Kinds[k] == "cslot" || p.Kinds[k] == "wcslot" {
 		return "*co*"
 	}
 	return "*fo*"
@@ -711,16 +711,22 @@ func (p *c17Prog) source(sequential bool) string {
 	if p.usesTicker() {
 		b.WriteString("(defvar *tk* (time-ticker 0.001))\n")
 	}
-	var fs, cs, ls []string
+	var fs, cs, ls, wfs, wcs []string
 	hash := false
 	for k, kind := range p.Kinds {
 		switch kind {
 		case "global":
 			fmt.Fprintf(&b, "(defvar *c%d* 0)\n", k)
-		case "fslot":
+		case "fslot", "wfslot":
 			fs = append(fs, fmt.Sprintf("(c%d 0)", k))
-		case "cslot":
+			if kind == "wfslot" {
+				wfs = append(wfs, fmt.Sprintf("c%d", k))
+			}
+		case "cslot", "wcslot":
 			cs = append(cs, fmt.Sprintf("(c%d :initform 0)", k))
+			if kind == "wcslot" {
+				wcs = append(wcs, fmt.Sprintf("c%d", k))
+			}
 		case "hash":
 			hash = true
 		case "let":
@@ -852,15 +858,34 @@ func (p *c17Prog) source(sequential bool) string {
 			fmt.Fprintf(&body, "(vtrace 'fin %d (send *sp* :c%d))\n", k, k)
 			continue
 		}
+		switch p.Kinds[k] {
+		case "wfslot":
+			// read through the with-slots variable (from a nested scope) and from the instance: -1 if they differ
+			fmt.Fprintf(&body, "(vtrace 'fin %d (let ((a c%d) (b (send *fo* :c%d))) (if (eql a b) a -1)))\n", k, k, k)
+			continue
+		case "wcslot":
+			fmt.Fprintf(&body, "(vtrace 'fin %d (let ((a c%d) (b (slot-value *co* 'c%d))) (if (eql a b) a -1)))\n", k, k, k)
+			continue
+		}
 		fmt.Fprintf(&body, "(vtrace 'fin %d %s)\n", k, p.readExpr(k))
 	}
 	for i := range p.Caps {
 		fmt.Fprintf(&body, "(vtrace 'len %d (length *ch%d*))\n", i, i)
 	}
+	// slots reached through with-slots variables: the routines are started inside the with-slots
+	// body, so the scope holding the slot references is the one `run` makes shared; the final
+	// values are read both through the variable and from the instance itself (see above)
+	text := body.String()
+	if len(wcs) > 0 {
+		text = fmt.Sprintf("(with-slots (%s) *co*\n%s)\n", strings.Join(wcs, " "), text)
+	}
+	if len(wfs) > 0 {
+		text = fmt.Sprintf("(with-slots (%s) *fo*\n%s)\n", strings.Join(wfs, " "), text)
+	}
 	if len(ls) > 0 {
-		fmt.Fprintf(&b, "(let (%s)\n%s)\n", strings.Join(ls, " "), body.String())
+		fmt.Fprintf(&b, "(let (%s)\n%s)\n", strings.Join(ls, " "), text)
 	} else {
-		b.WriteString(body.String())
+		b.WriteString(text)
 	}
 	return b.String()
 }
@@ -1163,6 +1188,9 @@ func c17GenFan(rng *lib.Rng, maxOps int, withMutex bool) *c17Prog {
 			p.Routines = append(p.Routines, sk)
 		}
 	}
+	if withMutex && rng.Chance(35) {
+		c17WithSlots(rng, p)
+	}
 	return p
 }
 
@@ -1394,6 +1422,23 @@ func c17Defensive(rng *lib.Rng, p *c17Prog) {
 	}
 }
 
+// c17WithSlots turns some instance slot counters into with-slots variables: the routines are
+// started inside the with-slots body (the scope holding the slot references becomes shared) and
+// every read goes through a nested scope (the let of an increment, a dotimes body, the routine's
+// own scope). Only for routines started in the lexical scope of the program text.
+func c17WithSlots(rng *lib.Rng, p *c17Prog) {
+	if p.Spawn != "" && p.Spawn != "nested" {
+		return
+	}
+	for k, kind := range p.Kinds {
+		if kind == "fslot" && rng.Chance(60) {
+			p.Kinds[k] = "wfslot"
+		} else if kind == "cslot" && rng.Chance(60) {
+			p.Kinds[k] = "wcslot"
+		}
+	}
+}
+
 // family mutex: routines hammering guarded counters
 func c17GenMutex(rng *lib.Rng, maxOps int, kinds []string) *c17Prog {
 	p := &c17Prog{Family: "mutex", Shape: "counters"}
@@ -1461,6 +1506,9 @@ func c17GenMutex(rng *lib.Rng, maxOps int, kinds []string) *c17Prog {
 	if rng.Chance(40) {
 		c17Defensive(rng, p)
 	}
+	if rng.Chance(40) {
+		c17WithSlots(rng, p)
+	}
 	return p
 }
 
@@ -1483,6 +1531,9 @@ func c17GenSync(rng *lib.Rng, maxOps int) *c17Prog {
 			rp.Body = append([]c17Stmt{{Kind: "sync", K: r}}, rp.Body...)
 			p.Routines[r] = []c17Stmt{{Kind: "sync", K: r}, rp}
 		}
+	}
+	if rng.Chance(35) {
+		c17WithSlots(rng, p)
 	}
 	return p
 }
@@ -1605,6 +1656,27 @@ func c17GenDispatchRace(rng *lib.Rng, opsPerGen, callsPerCaller, ngen, ncallers 
 	return p
 }
 
+// c17PrettyForm is a form that pretty prints a list nested `depth` levels deep with the given right
+// margin through write-to-string, prin1-to-string or format ~S. Continuation lines are indented by
+// about one column per level with a narrow margin and by much more with a wide one.
+func c17PrettyForm(id string, depth, margin, via int) string {
+	nest := "(omega psi)"
+	for d := 0; d < depth; d++ {
+		nest = fmt.Sprintf("(lambda-%d kappa-%d %s mu)", d, depth, nest)
+	}
+	form := fmt.Sprintf("'(alpha-%s (beta %d gamma) %s \"str\")", id, depth, nest)
+	var call string
+	switch via {
+	case 0:
+		call = "(write-to-string " + form + ")"
+	case 1:
+		call = "(prin1-to-string " + form + ")"
+	default:
+		call = "(format nil \"~S\" " + form + ")"
+	}
+	return fmt.Sprintf("(let ((*print-pretty* t) (*print-right-margin* %d)) %s)", margin, call)
+}
+
 // family tables: routines that define and use their own variables, functions, flavors, classes,
 // methods on a shared generic function, and print
 func c17GenTables(rng *lib.Rng, maxOps int, definers, warm bool) *c17Prog {
@@ -1639,7 +1711,15 @@ func c17GenTables(rng *lib.Rng, maxOps int, definers, warm bool) *c17Prog {
 			case 5:
 				forms = append(forms, fmt.Sprintf("(format nil \"~A|~D|~S|~5,'0D|~X\" 'sym-%s %d \"s%d\" %d %d)", id, n, n, n, n))
 			case 6:
-				forms = append(forms, fmt.Sprintf("(let ((*print-pretty* t) (*print-right-margin* %d)) (write-to-string '(alpha-%s (beta %d gamma) (delta epsilon (zeta %d)) \"str\")))", 8+rng.Intn(20), id, n, n))
+				// pretty printing: shallow and very deep forms, narrow and wide margins
+				depth, margin := rng.Intn(4), 8+rng.Intn(20)
+				if rng.Chance(40) {
+					depth = 20 + rng.Intn(140)
+				}
+				if rng.Chance(30) {
+					margin = 80 + rng.Intn(250)
+				}
+				forms = append(forms, c17PrettyForm(id, depth, margin, rng.Intn(3)))
 			case 7:
 				forms = append(forms, fmt.Sprintf("(princ-to-string (list %d 'q-%s \"x\" #\\a (/ %d 7) %d.5))", n, id, n+1, n))
 			case 8:
@@ -2231,7 +2311,7 @@ func c17Cells() []*c17Case {
 		}
 		return p
 	}
-	for _, kind := range []string{"global", "fslot", "cslot", "hash", "let"} {
+	for _, kind := range []string{"global", "fslot", "cslot", "hash", "let", "wfslot", "wcslot"} {
 		mk("counter-"+kind, counter(kind))
 	}
 	for _, kind := range []string{"global", "fslot", "cslot", "hash", "let"} {
@@ -2389,12 +2469,16 @@ func c17Cells() []*c17Case {
 				id := fmt.Sprintf("%d-%d", r, i)
 				switch i % 4 {
 				case 0:
-					// nesting grows with i: the printer's indentation grows step by step
-					nest := "(omega psi)"
-					for d := 0; d < 1+i/6; d++ {
-						nest = fmt.Sprintf("(lambda-%d kappa-%d %s mu)", d, i, nest)
+					// nesting grows with i in every routine at the same pace, from a few levels to
+					// far beyond the default right margin (indentation of 1 .. 150 columns and more);
+					// narrow and wide right margins alternate. No routine and no prelude form prints
+					// anything deep before: whatever the printer keeps between calls is first
+					// needed (and grown) by several routines at about the same time.
+					margin := 8 + (i*7+r)%25
+					if (i/4)%3 == 2 {
+						margin = 90 + (i*13+r*29)%200
 					}
-					forms = append(forms, fmt.Sprintf("(let ((*print-pretty* t) (*print-right-margin* %d)) (write-to-string '(alpha-%s (beta %d gamma) %s \"str\")))", 8+(i*7+r)%25, id, i, nest))
+					forms = append(forms, c17PrettyForm(id, 1+i+i/8, margin, (i/4+r)%3))
 				case 1:
 					forms = append(forms, fmt.Sprintf("(format nil \"~A|~D|~S|~5,'0D|~X|~R\" 'sym-%s %d \"s%d\" %d %d %d)", id, i, i, i, i*31, i))
 				case 2:
